@@ -139,6 +139,20 @@ TraceQuery ==
                  <<(Ev.proof /\ r.proof) => got = ver, "model:verifying-heights-differ">>,
                  <<Ev.proof => Len(Ev.forged) = 0, "proof-proves-something-else">> >>)
 
+(* "/subspace" query: the state does not change.  Ev.kv: the returned pairs as a map, Ev.n: how
+   many pairs the list had, Ev.sorted: strictly ascending in the real byte order *)
+TraceSubspace ==
+    /\ Is("subspace") /\ Step /\ mh' = mh /\ UNCHANGED vars
+    /\ LET r == SubspaceMS(Ev.s, Ev.p)
+           c == ContentAt(hver)[Ev.s]
+           want == Restrict(c, {k \in DOMAIN c : HasPrefix(k, Ev.p)}) IN
+       Checks(<< (* the property, directly on the logged answer *)
+                 <<(~dirty /\ ~rolled /\ hver >= 1) => (Ev.ok /\ SameMap(Ev.kv, want)), "subspace-not-the-committed-pairs">>,
+                 <<Ev.ok => (Ev.sorted /\ Ev.n = Cardinality(DOMAIN Ev.kv)), "subspace-not-in-key-order">>,
+                 (* conformance with the implementation-shaped operator *)
+                 <<r.ok = Ev.ok, "model:subspace-answered-differs">>,
+                 <<(r.ok /\ Ev.ok) => SameMap(Ev.kv, r.kv), "model:subspace-result-differs">> >>)
+
 (* LoadVersion(v) on the live handle; the event carries the handle's state before (p...) and after *)
 TraceLiveLoad ==
     /\ Is("liveload") /\ Step /\ mh' = mh
@@ -161,9 +175,10 @@ TraceLiveLoad ==
                    "model:live-load-state-differs">> >>)
 
 (* a durable write of Commit that is none of the protocol's (logged for the write-log checks of
-   C13): no step of the model, the state does not change *)
+   C13), or a query that panicked (judged outside: `query-panics`): no step of the model, the state
+   does not change *)
 TraceOther ==
-    /\ Is("otherwrite") /\ Step /\ mh' = mh /\ bad' = bad /\ UNCHANGED vars
+    /\ (Is("otherwrite") \/ Is("querypanic")) /\ Step /\ mh' = mh /\ bad' = bad /\ UNCHANGED vars
 
 TraceRestart ==
     /\ Is("restart") /\ Step /\ mh' = mh /\ bad' = bad
@@ -175,7 +190,7 @@ TraceDone ==
 
 TraceNext ==
     \/ TraceReset \/ TraceOpen \/ TraceWrite \/ TraceCommitStart \/ TraceSave \/ TracePrune
-    \/ TraceTCommit \/ TraceFlush \/ TraceLoad \/ TraceQuery \/ TraceLiveLoad \/ TraceRestart \/ TraceOther
+    \/ TraceTCommit \/ TraceFlush \/ TraceLoad \/ TraceQuery \/ TraceSubspace \/ TraceLiveLoad \/ TraceRestart \/ TraceOther
     \/ TraceDone
 
 TraceSpec == TraceInit /\ [][TraceNext]_tvars
